@@ -214,6 +214,8 @@ PREDS = {
     "cp_nonbot": (351, 1, "$0 != %s::Bottom" % CP, lambda l: l != -1),
     "b_is": (360, 1, "$0", lambda l: l == 1),
     "pair_ge": (370, 1, "$0 >= (2u32, 0u32)", lambda l: l >= 2 * PAIRK),
+    "prod_a_ge1": (380, 1, "$0.0.0 >= 1", lambda l: l // PAIRK >= 1),
+    "prod_b_le1": (381, 1, "$0.0.1.0 <= 1", lambda l: l % PAIRK <= 1),
 }
 PLAIN_PRED_PY = {"lt": lambda a, b: a < b, "ne": lambda a, b: a != b, "even": lambda a: a % 2 == 0, "le": lambda a, b: a <= b}
 for _n, _f in PLAIN_PRED_PY.items():
@@ -253,6 +255,7 @@ PRED_SIG = {
     "max_ge3": ["max"], "max_gex": ["max", "p"], "opt_some": ["opt"], "opt_ge": ["opt"],
     "set_has": ["set", "p"], "set_big": ["set"], "bset_has": ["bset", "p"], "bset_top": ["bset"],
     "cp_top": ["cp"], "cp_nonbot": ["cp"], "b_is": ["bool"], "pair_ge": ["pair"],
+    "prod_a_ge1": ["prod"], "prod_b_le1": ["prod"],
 }
 
 
